@@ -166,9 +166,9 @@ PROPS = {
         "units": [
             plain("c01", "TestReplayRegressions"),
             plain("c01", "TestReplayDepth"),
-            rapid("c01", "TestPropRoundTrip", quick=(10000, 4), thorough=(150000, 12)),
+            rapid("c01", "TestPropRoundTrip", quick=(15000, 6), thorough=(150000, 12)),
             rapid("c01", "TestPropRefusal", quick=(3000, 1), thorough=(30000, 2)),
-            rapid("c01", "TestPropForeignForms", quick=(10000, 2), thorough=(150000, 4)),
+            rapid("c01", "TestPropForeignForms", quick=(15000, 3), thorough=(150000, 4)),
             rapid("c01", "TestPropLongStream", quick=(150, 2), thorough=(3000, 8)),
             fuzz("c01", "FuzzRoundTrip", secs=150),
         ],
@@ -187,7 +187,7 @@ PROPS = {
                         "merging of consecutive EXISTS updates would be tolerated (the code's own TODO); other reorderings are violations"],
         "units": [
             plain("c07", "TestReplayRegressions"),
-            rapid("c07", "TestPropTracker", quick=(1500, 4), thorough=(30000, 12), steps=40),
+            rapid("c07", "TestPropTracker", quick=(2500, 8), thorough=(30000, 12), steps=40),
         ],
     },
     "C05": {
@@ -206,7 +206,7 @@ PROPS = {
         "units": [
             plain("c05", "TestReplayScenarios"),
             plain("c05", "TestReplayStartTLSPipelining"),
-            rapid("c05", "TestPropStateMachine", quick=(500, 6), thorough=(8000, 14), shrinktime="20s"),
+            rapid("c05", "TestPropStateMachine", quick=(900, 8), thorough=(8000, 14), shrinktime="20s"),
         ],
     },
     "C04": {
@@ -293,7 +293,7 @@ PROPS = {
                         "string arguments are at most 4096 octets on the wire (the server refuses longer buffered literals by design)",
                         "HeaderFields/HeaderFieldsNot are only generated together with the HEADER specifier (API precondition)"],
         "units": [
-            rapid("c02", "TestPropCommands", quick=(1500, 6), thorough=(30000, 14)),
+            rapid("c02", "TestPropCommands", quick=(2500, 8), thorough=(30000, 14)),
         ],
     },
     "C03": {
@@ -317,7 +317,7 @@ PROPS = {
                         "APPENDLIMIT NIL is represented by the client API as 2^32-1"],
         "units": [
             plain("c03", "TestKnownEncodedWord"),
-            rapid("c03", "TestPropResponses", quick=(1200, 6), thorough=(25000, 14)),
+            rapid("c03", "TestPropResponses", quick=(2000, 8), thorough=(25000, 14)),
         ],
     },
     "C18": {
@@ -336,7 +336,7 @@ PROPS = {
         "assumptions": ["library errors after a refused literal (including the client closing the connection, finding F-C12b) are legitimate outcomes for this property",
                         "the silence check before '+' uses a 300 microsecond observation window on an in-memory pipe"],
         "units": [
-            rapid("c18", "TestPropSyntax", quick=(2500, 6), thorough=(40000, 14)),
+            rapid("c18", "TestPropSyntax", quick=(6000, 8), thorough=(40000, 14)),
         ],
     },
     "C12": {
@@ -356,7 +356,7 @@ PROPS = {
                         "no EXPUNGE update is sent while an EXPUNGE command is pending, no untagged SEARCH while two searches are pending (RFC 9051 5.5)",
                         "unsolicited FETCH data is compared as a multiset (handlers run in their own goroutines)"],
         "units": [
-            rapid("c12", "TestPropRouting", quick=(1200, 6), thorough=(20000, 14)),
+            rapid("c12", "TestPropRouting", quick=(5000, 8), thorough=(20000, 14)),
         ],
     },
     "C11": {
@@ -446,7 +446,7 @@ PROPS = {
         "assumptions": ["commands are issued one at a time (the property's quantifier); concurrency is C14",
                         "the 'actual list' is what a connection that selects the mailbox afresh is told; the mailbox's own semantics are C09"],
         "units": [
-            rapid("c08", "TestPropViews", quick=(700, 8), thorough=(20000, 16), steps=40),
+            rapid("c08", "TestPropViews", quick=(1000, 10), thorough=(20000, 16), steps=40),
         ],
     },
     "C09": {
@@ -474,7 +474,7 @@ PROPS = {
                         "INTERNALDATE of messages appended without date is only required to lie in the run's wall-clock window"],
         "units": [
             plain("c09", "TestKnownSmallerZero"),
-            rapid("c09", "TestPropModel", quick=(600, 8), thorough=(15000, 16), steps=40),
+            rapid("c09", "TestPropModel", quick=(1000, 10), thorough=(15000, 16), steps=40),
         ],
     },
     "C14": {
